@@ -71,6 +71,7 @@ class Session:
         self.undecided: list[str] = []
         self.controls: list[str] = []
         self.builders: list[Builder] = []
+        self.anchors: set = set()
         self._refmod = ref_module(prog)
 
     # -- builders --------------------------------------------------------------
@@ -107,7 +108,25 @@ class Session:
         if r is None:
             raise AnalysisError(f"anchor {cls_name}.{meth} vanished")
         self.functions.add(f"{r[0].qualname}.{meth}")
+        self.anchors.add((ci.qualname, meth))
         return ci, r[0], r[1]
+
+    def unanalysed_overrides(self) -> list[str]:
+        """Definitions of an anchor method in a subclass that did not exist in the pinned tree: the rules analyse the definition
+        they resolved by name from the anchor class, so a later override would silently replace analysed behaviour."""
+        known = known_names()
+        out = []
+        if not known:
+            return out
+        for cq, meth in sorted(self.anchors):
+            ci = self.prog.classes.get(cq)
+            if ci is None:
+                continue
+            for sub in self.prog.subclasses(ci):
+                q = f"{sub.qualname}.{meth}"
+                if meth in sub.methods and q not in known and not sub.is_abstractmethod(meth):
+                    out.append(f"{q} overrides the analysed {cq.rsplit('.', 1)[-1]}.{meth}")
+        return sorted(set(out))
 
     def function(self, module: str, name: str):
         m = self.prog.modules.get(module)
@@ -251,6 +270,9 @@ def analyse(prop: str, prog: Program, tier: str = "quick"):
         mod.check(s)
         if tier == "thorough" and hasattr(mod, "check_thorough"):
             mod.check_thorough(s)
+        ov = s.unanalysed_overrides()
+        if ov:
+            raise AnalysisError("new override(s) of analysed anchors are not covered by the rules: " + "; ".join(ov[:4]))
     except AnalysisError as e:
         return s, f"ANALYSIS-ERROR {e}"
     except Exception as e:  # noqa: BLE001
@@ -280,6 +302,9 @@ def run_property(prop: str, tier: str, checker, explanation: str, assumptions: l
         prog = prog or Program()
         s = Session(prog, prop, tier)
         checker(s)
+        ov = s.unanalysed_overrides()
+        if ov:
+            raise AnalysisError("new override(s) of analysed anchors are not covered by the rules: " + "; ".join(ov[:4]))
     except AnalysisError as e:
         aborted = f"ANALYSIS-ERROR property={prop} {e}"
     except Exception as e:  # noqa: BLE001
